@@ -217,7 +217,7 @@ def r4_r5_client_adopts(ctx):
         exits = [b_ for b_ in allr0 if b_ not in own0 and any(p_ in own0 for p_ in cfg.preds(b_))] or body.return_blocks()
         empty_e = []
         for c in conds.all():
-            if c.block in own0 and c.kind == "bool" and is_call_term(c.term, "Bytes::is_empty") and "frame.data" in fmt(c.term):
+            if c.block in own0 and c.kind == "bool" and is_call_term(c.term, "::is_empty") and "frame.data" in fmt(c.term):
                 empty_e += c.succs_for(True)        # a push without payload carries no scheme
         if client_e:
             okall, pth = cfg.must_pass(client_e, exits, via_blocks=[s[0] for s in hit] + [e[1] for e in err_e] + empty_e)
